@@ -26,7 +26,7 @@ for d in sorted(glob.glob(os.path.join(root, "seeded", "C*-m*"))):
     cls = " ".join("`%s`" % c for c in m["check_result"].get("violation_classes", [])[:2])[:150]
     rows.append("| `%s` | %s | %s | %s | %s %s | %s |" % (name, m["breaks_property"], ", ".join(files), title.replace("|", "/"), verdict, cls, notes.get(name, "detected at the quick tier as delivered")))
 table = """<!-- SEEDED-TABLE-BEGIN -->
-### Seeded changes from independent sub-agents (three waves of 11 agents: 2 + 2 + 3 changes per agent)
+### Seeded changes from independent sub-agents (four waves of 11 agents: 2 + 2 + 3 + 3 changes per agent)
 
 Each agent got only the text of one property and its own scratch worktree; nothing from /verif. Every change was
 confirmed by me in a scratch worktree (`intake.sh`): the demonstration passes on the clean tree; with the change
